@@ -177,7 +177,19 @@ impl World {
         let mut v: Vec<String> = (0..self.cfg.n_traders).map(World::trader).collect();
         v.push("whale".into());
         v.push("liquidator".into());
+        v.extend(World::shadow_accounts(&self.cfg));
         v
+    }
+
+    /// In worlds whose second vAMM's address is the first one's followed by "0": accounts named "0" + a trader. Appended
+    /// to the first vAMM's address they read like the second vAMM's address followed by the trader's. They are ordinary
+    /// funded traders.
+    pub fn shadow_accounts(cfg: &WorldCfg) -> Vec<String> {
+        if cfg.kind == WorldKind::Standard && cfg.prefix_vamms && cfg.vamms.len() >= 2 {
+            (0..cfg.n_traders).map(|i| format!("0{}", World::trader(i))).collect()
+        } else {
+            vec![]
+        }
     }
 
     pub fn build(cfg: &WorldCfg) -> Result<World, String> {
@@ -189,6 +201,9 @@ impl World {
         let mut funded: Vec<(String, U)> = vec![];
         for i in 0..cfg.n_traders {
             funded.push((World::trader(i), big));
+        }
+        for a in World::shadow_accounts(cfg) {
+            funded.push((a, big));
         }
         funded.push(("whale".into(), whale_bal));
         funded.push(("liquidator".into(), big));
